@@ -353,6 +353,44 @@ def int_bounds_expect(a, b):
     return tuple(sorted(bad))
 
 
+DEC_GLUE_TEXTS = ['x12.5', 'x007.5', 'c=123.75%', '1.5+.5', '3-.25', '12.5', '99999999999.5', '1.5-2.5', 'a.5', '7.5.5', '1+2.5', '00.5', '-.5 +.5 .5',
+                  '5+.25', 'v1.2.3', '0.5-.5', '10.25', '(.75)', 'x = .5', '2.50+1.25']
+
+
+def run_dec_glue(M, case):
+    """search results of every Decimal variant on texts with glued numerals: a numeral without integer part never starts
+    right after a digit, and (non-extensible) a sign glued to a word character is not part of a match"""
+    for variant, (sg, mk) in DEC_VARIANTS.items():
+        for (a, b) in ((0, 9), (0, 2147483647), (0, 99)):
+            for (mn, mx) in ((1, None), (2, 2), (1, 3)):
+                for ext in (False, True):
+                    what = '%s(%d,%d,%r,%r,is_extensible=%r)' % (variant, a, b, mn, mx, ext)
+                    p = M.build(what, lambda: mk(a, b, mn, mx, is_extensible=ext))
+                    if p is None:
+                        continue
+                    for t in DEC_GLUE_TEXTS:
+                        try:
+                            got = p.get_matches_and_pos(t)
+                        except Exception as e:
+                            M.expect(False, 'crash:' + type(e).__name__, '%s.get_matches_and_pos(%r)' % (what, t), 'dec-glue')
+                            continue
+                        for (m, s_, e_) in got:
+                            prev = t[s_ - 1] if s_ > 0 else ''
+                            body = m.lstrip('+-')
+                            if body.startswith('.'):
+                                first = s_ + (len(m) - len(body))
+                                pv = t[first - 1] if first > 0 else ''
+                                M.expect(not (pv.isdigit()) or first != s_, 'meta:glued-match',
+                                         '%s on %r matched %r: a numeral without integer part directly after the digit %r' % (what, t, m, pv), 'dec-glue')
+                                if first != s_:
+                                    # sign + '.' : the sign itself must not be glued to a digit either (documented for include_sign)
+                                    M.expect(not prev.isdigit() or ext, 'meta:glued-match',
+                                             '%s on %r matched %r: the sign is glued to the digit %r' % (what, t, m, prev), 'dec-glue')
+                            elif m[:1] in '+-' and not ext:
+                                M.expect(not (prev.isdigit() or prev.isalpha() or prev == '_'), 'meta:glued-match',
+                                         '%s on %r matched %r: the sign is glued to %r' % (what, t, m, prev), 'dec-glue')
+
+
 def run_dec_invalid(M, case):
     mins = [0, -1, 1, 2, 3, 1.5, '1', True, None, 1.0, 2.0]
     maxs = [None, 0, 1, 2, 3, 5, -1, 2.5, '3', True, 3.0, 5.0]
@@ -579,6 +617,9 @@ def run_word(M, case):
         affs = [' ', '\t', '\n', '\r', '\x0b', '\x0c']
     elif k < 0.3:
         affs = rnd.sample(list('abcxyz0123456789_-.$'), rnd.choice([3, 5, 8]))
+    elif k < 0.42:
+        x, y, z = rnd.sample(['on', 'off', 'da', 'x', 'ab', 'q1', 'é', '(', 'a.'], 3)
+        affs = rnd.choice([[x + '|' + y, z, y], [x + '|' + y, y, z], [z, x + '|', y, ''][:3], [x, y, x + '|' + y, y], ['|', x, ''][:2] + [y], [x, x, y]])
     wc = '[A-Za-z0-9_]'
     for cls, tmpl in [(ME.WordContains, '(?:%(w)s)*(?:%(a)s)(?:%(w)s)*'), (ME.WordStartsWith, '(?:%(a)s)(?:%(w)s)*'),
                       (ME.WordEndsWith, '(?:%(w)s)*(?:%(a)s)')]:
@@ -812,6 +853,18 @@ def run_date(M, case):
                             M.expect(got == [s], 'meta:rejects-valid', '%s.get_matches(%r) = %r' % (what, l + s + r, got), 'date-embedded')
 
 
+def run_date_invalid_late(M, case):
+    """invalid spellings that differ from documented formats only by letter case / whitespace, probed after valid constructions"""
+    ME.Date()
+    for f in ('dd/mm/yyyy', 'd-m-yy', 'yyyy/mm/d', 'mm/dd/yy'):
+        ME.Date(f)
+        ME.Date([f], is_extensible=True)
+    for bad in ('DD/MM/YYYY', 'Dd-m-YY', 'yyyy/MM/d', 'MM/DD/YY', 'dd/mm/yyyy ', ' dd/mm/yyyy', 'dd/mm/YYYY', 'D-M-YY'):
+        for ext in (False, True):
+            M.build('Date(%r, is_extensible=%r) after the lower-case format was used' % (bad, ext), lambda: ME.Date(bad, is_extensible=ext), (T_VALUE,))
+            M.build('Date([d/m/yy, %r])' % bad, lambda: ME.Date(['d/m/yy', bad], is_extensible=ext), (T_VALUE,))
+
+
 def run_date_invalid(M, case):
     for bad in ['dd/mm/yy/yy', 'mm/yyyy/dd', 'd.m.yy', '', 'dd-mm/yyyy', 'yyyy/dd/mm', 'dd/mm', 'ddd/mm/yyyy', 'dd/mm/yyy', 'dd mm yyyy', 5, 1.5, True,
                 b'dd/mm/yyyy', ['dd/mm/yyyy', 5], ['dd/mm/yyyy', 'x'], [None], {'dd/mm/yyyy': 1} if False else ['d/m'], ['']]:
@@ -853,6 +906,8 @@ def cases(check, tier, seed, shard, nshards):
     elif check == 'C16':
         if shard == 0:
             yield {'kind': 'dec-invalid'}
+        if shard == 1 % nshards:
+            yield {'kind': 'dec-glue'}
         n = (200 if not big else 2000) // nshards + 1
         for i in range(n):
             a = rnd.choice([0, 0, 0, 1, 5, 10, 99, 100, 123])
@@ -902,9 +957,11 @@ def cases(check, tier, seed, shard, nshards):
         for i in range(n):
             k = rnd.choice([2, 3, 5, 8, 16, 30])
             yield {'kind': 'date', 'formats': rnd.sample(fmts, k), 'seed': rnd.randrange(1 << 30)}
+        if shard in (0, nshards - 1):
+            yield {'kind': 'date-invalid-late'}
 
 
-RUNNERS = {'int': run_int, 'int-invalid': run_int_invalid, 'dec': run_dec, 'dec-invalid': run_dec_invalid, 'numeral': run_numeral,
+RUNNERS = {'date-invalid-late': run_date_invalid_late, 'dec-glue': run_dec_glue, 'int': run_int, 'int-invalid': run_int_invalid, 'dec': run_dec, 'dec-invalid': run_dec_invalid, 'numeral': run_numeral,
            'numeral-invalid': run_numeral_invalid, 'word': run_word, 'ipv4': run_ipv4, 'ipv6': run_ipv6, 'date': run_date,
            'date-invalid': run_date_invalid}
 
